@@ -139,7 +139,7 @@ pub async fn run(seed: u64, profile_name: &str) -> Vec<Value> {
                 } else {
                     CallSpec::ListTopics { project: "projects/p1".into(), size: 0, token: String::new() }
                 };
-                exec(Arc::clone(&world), c, call).await;
+                let _ = exec(Arc::clone(&world), c, call).await;
             }
         }));
     }
